@@ -75,6 +75,12 @@ _n = copy.deepcopy(_LIST_NODES)
 _n["list_item"] = dict(_n["list_item"], isolating=True)
 FAMILY_SPECS["isoli"] = {"nodes": _n, "marks": copy.deepcopy(_MARKS)}
 EXTRA_FAMILY = ["isoli"]
+# a textblock whose content expression COUNTS inline children: adjacent text nodes that a mark step makes
+# equally marked are merged by Fragment.from_array, which changes the count (C01 known finding)
+_n = copy.deepcopy(_LIST_NODES)
+_n["pair"] = {"content": "(text | hard_break){2}", "group": "block"}
+FAMILY_SPECS["counted"] = {"nodes": _n, "marks": copy.deepcopy(_MARKS)}
+COUNTED_FAMILY = ["counted"]
 _SCHEMAS: dict[str, Schema] = {}
 
 
